@@ -114,3 +114,173 @@ theorem evalArray_noPanic (ev : Node → EvalOut) : ∀ (cs : List Node) (acc : 
       exact h c (by simp) s hc
 
 end PV
+
+namespace PV
+open PV.Text
+
+theorem evalKeyValue_noPanic (ev : Node → EvalOut) (hev : ∀ c, c.EvalSafe → NoRealPanic (ev c))
+    (hstr : ∀ t k p r, ev (.term t (.str k) p r) = .ok (.str k) ∨ ev (.term t (.str k) p r) = .panic "out of fuel")
+    (kv : Node) (hs : kv.EvalSafe) (hk : KvShape kv) (acc : List (Bytes × V)) :
+    ∀ e, evalKeyValue ev kv acc = .error e → NoRealPanic e := by
+  intro e he
+  cases kv with
+  | nt tk kcs p r i =>
+    cases kcs with
+    | nil => simp [KvShape] at hk
+    | cons k0 rest =>
+      cases k0 with
+      | term t v p0 r0 =>
+        cases v with
+        | str key =>
+          cases rest with
+          | nil => simp [KvShape] at hk
+          | cons k1 rest2 =>
+            cases rest2 with
+            | nil => simp [KvShape] at hk
+            | cons vn rest3 =>
+              have hsl : EvalSafeList (Node.term t (.str key) p0 r0 :: k1 :: vn :: rest3) := by
+                unfold Node.EvalSafe at hs
+                exact hs.1
+              have hvn : vn.EvalSafe := EvalSafeList_mem hsl vn (by simp)
+              simp only [evalKeyValue, List.getElem?_cons_zero, List.getElem?_cons_succ] at he
+              cases hstr t key p0 r0 with
+              | inl h1 =>
+                simp only [h1] at he
+                cases hv : ev vn with
+                | ok v => simp [hv] at he
+                | err pp m => simp only [hv] at he; cases he; intro s hs'; cases hs'
+                | panic s' =>
+                  simp only [hv] at he
+                  cases he
+                  rw [← hv]; exact hev vn hvn
+              | inr h1 =>
+                simp only [h1] at he
+                cases he
+                intro s hs'; cases hs'; rfl
+        | _ => simp [KvShape] at hk
+      | _ => simp [KvShape] at hk
+  | _ => simp [KvShape] at hk
+
+theorem evalObject_noPanic (ev : Node → EvalOut) (hev : ∀ c, c.EvalSafe → NoRealPanic (ev c))
+    (hstr : ∀ t k p r, ev (.term t (.str k) p r) = .ok (.str k) ∨ ev (.term t (.str k) p r) = .panic "out of fuel") :
+    ∀ (cs : List Node) (acc : List (Bytes × V)), EvalSafeList cs → ObjShape cs → NoRealPanic (evalObject ev cs acc)
+  | [], acc, _, _ => by intro s h; simp [evalObject] at h
+  | [kv], acc, hs, ho => by
+    have hkv : kv.EvalSafe := EvalSafeList_mem hs kv (by simp)
+    have hk : KvShape kv := by simpa only [ObjShape] using ho
+    intro s h
+    simp only [evalObject] at h
+    cases hr : evalKeyValue ev kv acc with
+    | ok a => simp [hr] at h
+    | error e =>
+      simp only [hr] at h
+      exact evalKeyValue_noPanic ev hev hstr kv hkv hk acc e hr s h
+  | kv :: d :: rest, acc, hs, ho => by
+    have hkv : kv.EvalSafe := EvalSafeList_mem hs kv (by simp)
+    have ho' : KvShape kv ∧ ObjShape rest := by simpa only [ObjShape] using ho
+    have hsr : EvalSafeList rest := by
+      simp only [EvalSafeList] at hs
+      exact hs.2.2
+    intro s h
+    simp only [evalObject] at h
+    cases hr : evalKeyValue ev kv acc with
+    | ok a =>
+      simp only [hr] at h
+      exact evalObject_noPanic ev hev hstr rest a hsr ho'.2 s h
+    | error e =>
+      simp only [hr] at h
+      exact evalKeyValue_noPanic ev hev hstr kv hkv ho'.1 acc e hr s h
+
+theorem EvalSafe_nt (tk : Bytes) (cs : List Node) (p r : Nat) (interp : Interp)
+    (h : (Node.nt tk cs p r interp).EvalSafe) :
+    EvalSafeList cs ∧ interp ≠ .none ∧ (∀ i, interp = .select i → i < cs.length) ∧ (interp = .object → ObjShape cs) := by
+  unfold Node.EvalSafe at h
+  cases interp <;> simp_all
+
+/-- evaluation of a tree whose interpreters are applicable never panics (the evaluator's own "out of fuel"
+    aside), whatever the custom interpreters do as long as they do not panic themselves -/
+theorem evalNode_noPanic (ce : CustomEval)
+    (hce : ∀ id cs pos ev, (∀ c ∈ cs, NoRealPanic (ev c)) → NoRealPanic (ce id cs pos ev)) :
+    ∀ (fuel : Nat) (x : Node), x.EvalSafe → NoRealPanic (evalNode ce fuel x) := by
+  intro fuel
+  induction fuel with
+  | zero => intro x _ s h; simp only [evalNode] at h; cases h; rfl
+  | succ fuel ih =>
+    intro x hx s h
+    cases x with
+    | term t v p r => simp [evalNode] at h
+    | empty p => simp [evalNode] at h
+    | eof p => simp [evalNode] at h
+    | nt tk cs p r interp =>
+      have hx' := EvalSafe_nt tk cs p r interp hx
+      have hch : ∀ c ∈ cs, NoRealPanic (evalNode ce fuel c) := fun c hc => ih c (EvalSafeList_mem hx'.1 c hc)
+      cases interp with
+      | none => exact absurd rfl hx'.2.1
+      | nilI => simp [evalNode] at h
+      | select i =>
+        have hi : i < cs.length := hx'.2.2.1 i rfl
+        simp only [evalNode] at h
+        have : cs[i]? = some cs[i] := List.getElem?_eq_getElem hi
+        rw [this] at h
+        exact hch cs[i] (List.getElem_mem hi) s h
+      | array =>
+        simp only [evalNode] at h
+        exact evalArray_noPanic _ cs [] hch s h
+      | object =>
+        simp only [evalNode] at h
+        refine evalObject_noPanic (evalNode ce fuel) ih ?_ cs [] hx'.1 (hx'.2.2.2 rfl) s h
+        intro t k p' r'
+        cases fuel with
+        | zero => exact .inr rfl
+        | succ f => exact .inl rfl
+      | custom id =>
+        simp only [evalNode] at h
+        exact hce id cs p (evalNode ce fuel) hch s h
+
+end PV
+
+namespace PV
+
+theorem nlAppend1_ne_nil (nl : List Node) (n : Node) : nlAppend1 nl n ≠ [] := by
+  unfold nlAppend1
+  split
+  · split
+    · rename_i hany
+      intro hnil
+      rw [hnil] at hany
+      simp at hany
+    · simp
+  · simp
+
+theorem appendNode_one_alts_ne (a : Res) (n : Node) : (appendNode a (.one n)).alts ≠ [] := by
+  cases a with
+  | nil => simp [appendNode, Res.alts]
+  | one m => simpa [appendNode, Res.alts, nlAppend] using nlAppend1_ne_nil [m] n
+  | list l => simpa [appendNode, Res.alts, nlAppend] using nlAppend1_ne_nil l n
+
+/-- a Sequence-family parser either leaves its result untouched or has at least one alternative -/
+theorem seqParse_result (r : RunFn) (sh : SeqShape) :
+    ∀ (fuel : Nat) (fr : Frame) ss st b ss' st', fr.depth = fr.nodes.length →
+      seqParse r sh fuel fr.depth fr.nodes fr.ctx fr.pos fr.merge ss st = some (b, ss', st') →
+      ss'.result = ss.result ∨ ss'.result.alts ≠ [] := by
+  have hafter : ∀ (m : Bool) (ss : SeqSt) (o : Out), (seqAfter m ss o).result = ss.result := by
+    intro m ss o; unfold seqAfter; split <;> rfl
+  intro fuel fr ss st b ss' st' hd h
+  refine seqParse_ind r sh (fun _ _ _ => True)
+    (fun ss _ ss' _ => ss'.result = ss.result ∨ ss'.result.alts ≠ []) ?_ ?_ ?_ ?_ ?_ fuel fr ss st b ss' st' trivial hd h
+  · intro ss st; exact .inl rfl
+  · intro a b c d e f h1 h2
+    cases h2 with
+    | inl h2 => rw [h2]; exact h1
+    | inr h2 => exact .inr h2
+  · intro _ _ _ _ _ _ _; trivial
+  · intro fr ss st g o st1 _ _ _ _
+    refine ⟨.inl (hafter _ _ _), fun _ _ => trivial, fun _ _ => .inr ?_⟩
+    simp only [seqEmit]
+    exact appendNode_one_alts_ne _ _
+  · intro fr ss st _ _ _ _
+    refine .inr ?_
+    simp only [seqEmit]
+    exact appendNode_one_alts_ne _ _
+
+end PV
